@@ -504,4 +504,38 @@ theorem fetch_ok {m : State} {s : FES.State} (h : R m s) (hl : m.len ≠ 0) :
       · show w.eventId = s.nextId
         rw [a6]; exact h.nid
 
+/-! ### next_time (read-only peek) -/
+
+theorem nextTime_refines {m : CQ.State} {s : FES.State} (h : R m s) :
+    nextTime m = FES.nextTime s := by
+  by_cases hl : m.len = 0
+  · obtain ⟨_, h2⟩ := fetch_empty h hl
+    unfold nextTime FES.nextTime
+    simp only [hl, if_true]
+    unfold FES.fetch at h2
+    split at h2
+    · cases h2
+    · split at h2
+      · rename_i hm; simp [hm]
+      · cases h2
+  · obtain ⟨e, m', s', h1, h2, _⟩ := fetch_ok h hl
+    unfold nextTime FES.nextTime
+    unfold fetch at h1
+    simp only [hl, if_false] at h1 ⊢
+    unfold FES.fetch at h2
+    rw [← h.zero] at h2 ⊢
+    cases hz : m.zero with
+    | cons e0 z => rfl
+    | nil =>
+      rw [hz] at h1 h2
+      simp only at h1 h2 ⊢
+      rw [h1]
+      cases hm : minEv s.pend with
+      | none => rw [hm] at h2; cases h2
+      | some e' =>
+        rw [hm] at h2
+        simp only [Except.ok.injEq, Prod.mk.injEq] at h2
+        simp [h2.1]
+
+
 end CQ
